@@ -43,6 +43,10 @@ add("C13", T_EFF, "DESIGN.md §4 C13",
     "Typestate-like rules: an order that stays in the book must not leave the id map (two sites do, by construction: known findings), a successful cancel returns the very payload of the map removal for the update's own id, not-found only after a lookup that missed. May-property of sites; no schedule is explored.")
 add("C15", T_EFF, "DESIGN.md §4 C15",
     "Pairing rules: record_order_added once per add, record_order_removed once exactly on removal paths, record_execution once per maker visit with the transaction's quantity and the level/maker price; recorder and getter bodies use a single fetch_add/load on the field they name (no lost updates); only statistics.rs writes the named counters.")
+add("C16", "static analysis: codec table extraction - writer tables from the expanded AST's format_args! templates, reader tables from MIR term provenance of the parser's result (custom rustc_private driver); table agreement rules; no execution", "DESIGN.md §4 C16",
+    "For all 13 Display/FromStr pairs: the tag written equals the literal matched, the key set written equals the key set whose values flow into the parsed value (per variant), key<->field binding is the same on both sides, placeholders are plain Display (or the Debug+upper-case idiom against an upper-casing reader), conversions are str::parse / the field type's own parser without casts, printed field types avoid the separators, unit-enum literals and the None/true/false sentinels agree, list openers/joiners/closers agree and elements use the element parser. Equality parse(print(v)) = v then rests on std/uuid/ulid Display<->parse being inverse (trusted).")
+add("C17", "static analysis: serde table and attribute agreement - serialize_field keys/feeding fields and the visitor's literal->variant->slot->field chain from MIR, #[serde(..)] attributes from the expanded AST; no execution", "DESIGN.md §4 C17",
+    "Hand-written serde pairs (PriceLevelSnapshot, PriceLevelStatistics, OrderId, OrderQueue, PriceLevel via PriceLevelData): written keys = accepted keys = struct fields with identical binding, strict reader, same element/intermediate types; derived impls: rename(serialize) names are accepted on input and unambiguous, no tag/untagged/skip/default/with/flatten asymmetry, no float fields or int->float casts, snapshot serialization iterates only Vecs (so a decoded package re-validates). serde derive and serde_json are trusted to be mutually inverse for symmetric attributes.")
 add("C18", "static analysis: panic-site inventory over the call-graph closure of the parsers + per-site discharge by dominating path facts and inductive loop invariants (custom rustc_private driver); no execution, no fuzzing", "DESIGN.md §4 C18",
     "Every panic-capable site (MIR assert terminators, str/slice/Vec indexing, unwrap/expect/panic family, panicking arithmetic helpers) reachable from the 56 parser entry points is inventoried and must be discharged on every path by a named rule (length guard, prefix/suffix guard, find index, match+len, ASCII byte, char_indices, ordering, bounded sum) using dominating facts and Houdini-style loop invariants; loops must be iterator-driven or advance a bounded cursor; no recursion. Complete for crate-local code under a stated list of trusted-total std/serde callees; inputs are never fed to the parsers.",
     "Trusted: the listed std / uuid / ulid / serde / serde_json callees are total; inputs shorter than 2 GiB; allocation succeeds. Undischargeable sites are reported (fail closed), so an exotic but safe idiom can cause a spurious report.")
